@@ -1,11 +1,19 @@
 (* C03 — Lines break only where breaking is allowed.  Property theorems only.
    Proved: the candidates come from the segmenter's flags (all attribute lists); a candidate line that is not rejected ends
-   exactly one past its break option; a required option that fits ends the line at once.  The full line_end_allowed is FALSE
-   of the faithful model on the truncated line (Findings/Wrap.v: f8_refuted).  NOT proved (oracle check_break_positions
-   only): the global statements "every returned line end is a permitted position" for non-truncated lines (needs: the option
-   handed out by the breaker from its unused registers carries the flags of a raw read, and is_valid_sound composed with the
-   store-structure invariant) and "no returned line spans a mandatory boundary that is a cluster boundary". *)
-From TV Require Import Model.Wrap Spec.Wrap Proofs.Wrap Proofs.WrapLines.
+   exactly one past its break option; a required option that fits ends the line at once; the required flag of EVERY option
+   the breaker hands out (read from the segmenter or re-issued from unusedWordBreak) is exactly "mandatory boundary and not
+   the text end" (required_iff_mandatory, with the breaker invariant BW kept by both loops and by every WrapNextLine call
+   from Prepare on: required_flag_invariant), hence a valid mandatory boundary that fits ends the line at once
+   (mandatory_boundary_ends_line_partial).  That every accepted option ends at a cluster boundary of every run is C02
+   (wrapped_pieces_exact, through is_valid_sound).
+   The full line_end_allowed is FALSE of the faithful model on the truncated line (Findings/Wrap.v: f8_refuted).
+   NOT proved (oracle check_break_positions only): the global statements over RETURNED lines, "every returned line end is a
+   permitted position" for non-truncated lines and "no returned line spans a mandatory boundary that is a cluster boundary".
+   Missing: an invariant over both iterators saying that every option between the line start and the last option read was
+   processed on this line (finding F37 shows an option can be dropped when the grapheme fallback returns a nil line, so
+   the invariant has to exclude, or account for, that path), and the converse of is_valid_sound (a cluster boundary is
+   always accepted by isValid). *)
+From TV Require Import Model.Wrap Spec.Wrap Proofs.Wrap Proofs.WrapLines Proofs.WrapMand.
 
 (* every UAX #14 candidate the breaker produces is the rune before a line boundary of the segmenter, candidates come
    in increasing order without skipping a boundary, and a candidate is required only at a mandatory boundary *)
@@ -75,3 +83,56 @@ Proof. vm_compute. split; [reflexivity|]. eexists _, _, _. split; reflexivity. Q
 Example word_option_example :
   fst (snd (next_word_raw (new_breaker [4; 4; 5; 4; 7])), fst (next_word_raw (new_breaker [4; 4; 5; 4; 7]))) = Some (1, false).
 Proof. reflexivity. Qed.
+
+(* ---- the required flag (Proofs/WrapMand.v) ----------------------------------------------------------------------- *)
+
+(* required_iff_mandatory: from any breaker state satisfying BW, every option nextWordBreak hands out — a raw read or the
+   re-issued unusedWordBreak — lies right before a line boundary of the segmenter, and it is flagged required exactly when
+   that boundary is mandatory and is not the end of the text; BW holds again afterwards *)
+Theorem required_iff_mandatory : forall b b' o,
+  BW b -> next_word_break b = (b', Some o) ->
+  BW b' /\ line_boundary (b_attrs b) (fst o + 1) = true
+  /\ (snd o = true <-> (mandatory_boundary (b_attrs b) (fst o + 1) = true /\ fst o <> b_n b - 1)).
+Proof.
+  intros b b' o HB H. destruct (nwb_canon b b' (Some o) HB H) as (HB' & _ & _ & HC). destruct (HC o eq_refl) as [C _].
+  split; [exact HB'|]. split; [exact (proj1 C)|exact (canonical_required _ _ _ C)].
+Qed.
+Print Assumptions required_iff_mandatory.
+
+(* required_flag_invariant: BW holds for the breaker Prepare creates and is kept by the grapheme loop, the UAX #14 loop,
+   WrapNextLine and any sequence of WrapNextLine calls — for every state, fuel, width; no hypothesis on the runs *)
+Theorem required_flag_invariant :
+  (forall attrs, BW (new_breaker attrs))
+  /\ (forall fuel w lc w' d, BW (w_br w) -> outer_loop fuel w lc = Ok (w', d) -> BW (w_br w'))
+  /\ (forall fuel w lc w' d, BW (w_br w) -> 1 <= b_wpos (w_br w) <= b_n (w_br w) -> inner_loop fuel w lc = Ok (w', d) -> BW (w_br w'))
+  /\ (forall w mw w' wl d, BW (w_br w) -> wrap_next_line w mw = Ok (w', wl, d) -> BW (w_br w'))
+  /\ (forall widths w w' rs, BW (w_br w) -> run_calls w widths = Ok (w', rs) -> BW (w_br w')).
+Proof. split; [exact BW_new|]. split; [exact outer_BW|]. split; [exact inner_BW|]. split; [exact wnl_BW|exact run_calls_BW]. Qed.
+Print Assumptions required_flag_invariant.
+
+(* mandatory_boundary_ends_line (partial): mandatory_break_ends_line_partial with the flag replaced by the segmenter's fact:
+   at the top of the UAX #14 loop (JT, OrdO, BW), when the next option lies before a mandatory boundary other than the
+   text end and processBreakOption answers "fits" (valid — not fused into a cluster — and within the width), the call
+   returns at once, not done, with a line ending exactly at that mandatory boundary.
+   Missing for the full statement: the global form over returned lines (no returned line spans a valid mandatory break). *)
+Theorem mandatory_boundary_ends_line_partial : forall n fuel w lc b1 opt w3 cand,
+  JT n w -> OrdO w -> BW (w_br w) ->
+  next_word_break (w_br w) = (b1, Some opt) ->
+  mandatory_boundary (b_attrs (w_br w)) (fst opt + 1) = true -> fst opt <> n - 1 ->
+  process_break_option (set_br (checkpoint w) b1) opt lc = Ok (w3, Fits, cand) ->
+  outer_loop (S fuel) w lc = Ok (mark_best w3 [cand], false)
+  /\ s_best (w_sc (mark_best w3 [cand])) = Some (s_alt (w_sc w3) ++ [cand])
+  /\ 0 < o_cnt cand /\ chain (w_start w) (s_alt (w_sc w3) ++ [cand]) (fst opt + 1)
+  /\ best_end (mark_best w3 [cand]) = fst opt + 1.
+Proof. exact mandatory_fits_ends_line. Qed.
+Print Assumptions mandatory_boundary_ends_line_partial.
+
+(* non-vacuity: "a LF b": BW holds after Prepare; the first option (after the line feed) is mandatory, not the text end, and
+   is handed out flagged required; after a call that re-arms unusedWordBreak the re-issued option carries the same flag *)
+Example required_flag_example :
+  let attrs := [4; 4; 7; 7] in
+  BW (new_breaker attrs)
+  /\ snd (next_word_break (new_breaker attrs)) = Some (1, true)
+  /\ mandatory_boundary attrs 2 = true
+  /\ snd (next_word_break (mark_word_unused (fst (next_word_break (new_breaker attrs))))) = Some (1, true).
+Proof. split; [apply BW_new|]. vm_compute. repeat split; reflexivity. Qed.
